@@ -2,7 +2,7 @@
 automatically introduced partial-derivative function symbols `<f>_d<k>`)."""
 import z3
 
-from .core import RS, SQRTPI
+from .core import RS, SQRTPI, FRAC_DEFS
 from .funcs import UF, is_uf, exp_term
 
 # user-registered derivative rules: name -> fn(app) -> [partial wrt arg k]
@@ -47,9 +47,9 @@ def diff(e, x, _memo=None):
     memo = {} if _memo is None else _memo
     key = e.get_id()
     if key in memo:
-        return memo[key]
+        return memo[key][1]
     r = _diff(e, x, memo)
-    memo[key] = r
+    memo[key] = (e, r)
     return r
 
 
@@ -59,6 +59,8 @@ def _diff(e, x, memo):
     if e.eq(x):
         return ONE
     if z3.is_const(e):
+        if e.get_id() in FRAC_DEFS:  # fractional part of a floor quotient: locally a/b - const
+            return diff(FRAC_DEFS[e.get_id()][1], x, memo)
         return ZERO
     k = e.decl().kind()
     ch = e.children()
